@@ -246,8 +246,15 @@ func GenCase(t *rapid.T, maxInputs, maxLines int) Case {
 		}
 	}
 	for i := 0; i < n; i++ {
+		if rapid.IntRange(0, 7).Draw(t, "tiny") == 0 {
+			// an input shorter than a gzip header (10 bytes)
+			tiny := rapid.SampledFrom([]string{"a", "a\n", "GET /a 1", "ab\ncd", "x\r\ny\r\n", "\n", "200 k=v\n", "abc 12\n"}).Draw(t, "tinyContent")
+			c.Inputs = append(c.Inputs, Input{Name: fmt.Sprintf("in%d.log", i), Content: pbt.S(tiny)})
+			continue
+		}
 		c.Inputs = append(c.Inputs, Input{Name: fmt.Sprintf("in%d.log", i), Content: pbt.S(GenContent(t, lines, true))})
 	}
+	c.Gunzip = rapid.IntRange(0, 2).Draw(t, "gunzip") == 0
 	if rapid.IntRange(0, 7).Draw(t, "missing") == 0 {
 		// unopenable inputs, sometimes as many as (or more than) the reader slots
 		nm := rapid.IntRange(1, 5).Draw(t, "nmissing")
